@@ -267,3 +267,38 @@ V("C11-pool-skips-one", ["C11"], "factor_analysis", "            data_sum = sum(
 V("C11-pool-inplace", ["C11", "C19"], "factor_analysis", "            data_sum = sum(data[1:], start=data[0])", "            data_sum = functools.reduce(operator.iadd, data)", "probe statistics pooled in place (mutates the caller's first object)", count=2)
 V("C11-fnx-first-only", ["C11"], "factor_analysis", "sum_px_sum = sum((x_i_s.sum_px for x_i_s in X_i))", "sum_px_sum = X_i[0].sum_px", "first-order statistics of the first session only")
 V("C11-other-ubm", ["C11"], "factor_analysis", "self.ubm, data_sum, Ux.reshape", "self.ubm.ubm if self.ubm.trainer == 'map' else self.ubm, data_sum, Ux.reshape", "explicit unwrapping that linear_scoring does itself", kind="benign", count=2, may_be_undecided=True)
+
+# ----------------------------------------------------------------------------- C03 (GMM loop) -- the k-means twins are under C06
+GW = "        while self.max_fitting_steps is None or step < self.max_fitting_steps:"
+V("C03-cap-le", ["C03"], "gmm", GW, "        while self.max_fitting_steps is None or step <= self.max_fitting_steps:", "one iteration more than the cap")
+V("C03-cap-and", ["C03"], "gmm", GW, "        while self.max_fitting_steps is not None and step < self.max_fitting_steps:", "no training at all without a cap")
+V("C03-cap-none-dropped", ["C03"], "gmm", GW, "        while step < self.max_fitting_steps:", "TypeError when no cap is configured")
+V("C03-step-init-1", ["C03"], "gmm", "        step = 0\n        while self.max_fitting_steps", "        step = 1\n        while self.max_fitting_steps", "counter starts at one: one iteration fewer, test on first pass")
+V("C03-thr-lt", ["C03"], "gmm", "convergence_value <= self.convergence_threshold", "convergence_value < self.convergence_threshold", "strict comparison with the threshold")
+V("C03-guard-2", ["C03"], "gmm", "            if step > 1:\n                convergence_value = abs((average_output_previous", "            if step > 2:\n                convergence_value = abs((average_output_previous", "convergence test delayed to the third pass")
+V("C03-guard-0", ["C03"], "gmm", "            if step > 1:\n                convergence_value = abs((average_output_previous", "            if step > 0:\n                convergence_value = abs((average_output_previous", "convergence test on the first pass against the literal 0")
+V("C03-guard-ge2", ["C03"], "gmm", "            if step > 1:\n                convergence_value = abs((average_output_previous", "            if step >= 2:\n                convergence_value = abs((average_output_previous", "guard spelled >= 2", kind="benign")
+V("C03-no-abs", ["C03"], "gmm", "convergence_value = abs((average_output_previous - average_output) / average_output_previous)", "convergence_value = (average_output_previous - average_output) / average_output_previous", "signed change")
+V("C03-absolute-change", ["C03"], "gmm", "convergence_value = abs((average_output_previous - average_output) / average_output_previous)", "convergence_value = abs(average_output_previous - average_output)", "absolute instead of relative change")
+V("C03-abs-abs", ["C03"], "gmm", "convergence_value = abs((average_output_previous - average_output) / average_output_previous)", "convergence_value = abs(average_output_previous - average_output) / abs(average_output_previous)", "abs(a-b)/abs(b)", kind="benign")
+V("C03-prev-after", ["C03"], "gmm",
+  "            average_output_previous = average_output\n            if input_is_dask:",
+  "            if input_is_dask:", "placeholder", kind="skip")
+V2("C03-prev-after-update", ["C03"], [
+    dict(module="gmm", old="            average_output_previous = average_output\n            if input_is_dask:", new="            if input_is_dask:"),
+    dict(module="gmm", old="            logger.debug(f'log likelihood = {average_output}')\n            if step > 1:", new="            logger.debug(f'log likelihood = {average_output}')\n            average_output_previous = average_output\n            if step > 1:"),
+  ], "previous criterion copied after the update: change is always 0")
+V("C03-unaveraged", ["C03", "C04"], "gmm", "average_output = float(statistics.log_likelihood / statistics.t)", "average_output = float(statistics.log_likelihood)", "stops on the total, not the average, log-likelihood")
+V("C03-criterion-first-block", ["C03", "C04"], "gmm",
+  "    statistics = functools.reduce(operator.iadd, statistics)\n    m_step_func(",
+  "    first = statistics[0]\n    first_ll, first_t = (first.log_likelihood, first.t)\n    statistics = functools.reduce(operator.iadd, statistics)\n    m_step_func(", "placeholder", kind="skip")
+V("C03-switches-swapped", ["C03"], "gmm", "update_means=machine.update_means, update_variances=machine.update_variances", "update_means=machine.update_variances, update_variances=machine.update_means", "update switches crossed in the wrapper")
+V("C03-store-under-wrong-switch", ["C03"], "gmm",
+  "    if update_means:\n        logger.debug('Update means.')\n        machine.means = statistics.sum_px / thresholded_n[:, None]\n    if update_variances:\n        logger.debug('Update variances.')\n        machine.variances =",
+  "    if update_variances:\n        logger.debug('Update means.')\n        machine.means = statistics.sum_px / thresholded_n[:, None]\n    if update_variances:\n        logger.debug('Update variances.')\n        machine.variances =",
+  "means updated under the variances switch")
+V("C03-arms-different-criterion", ["C03", "C04"], "gmm", "                _, average_output = m_step(stats, self)", "                average_output, _ = m_step(stats, self)", "NumPy arm takes the machine as criterion", kind="break")
+V("C03-post-loop-update", ["C03"], "gmm", "            logger.info('Reached maximum step. Training stopped without convergence.')\n        return self", "            logger.info('Reached maximum step. Training stopped without convergence.')\n        self.weights = self.weights / self.weights.sum()\n        return self", "model modified after the last M-step")
+V("C03-for-range", ["C03"], "gmm", "placeholder-for-range", "", "for-range loop", kind="skip")
+V("C03-logging-moved", ["C03"], "gmm", "            logger.debug(f'log likelihood = {average_output}')\n            if step > 1:", "            if step > 1:", "a log line removed", kind="benign")
+V("C03-trainer-crossed", ["C03", "C05"], "gmm", "m_step_func = map_gmm_m_step if machine.trainer == 'map' else ml_gmm_m_step", "m_step_func = ml_gmm_m_step if machine.trainer == 'map' else map_gmm_m_step", "M-step functions crossed")
